@@ -516,7 +516,7 @@ theorem components_remapped (flags : Nat) (gmap : Nat → Option Nat) (d out : B
     refine ⟨full, ids, news, ?_, r1, r2, r3, r4, r5⟩
     split at h
     · split at h
-      · exact absurd h.symm hne
+      · rw [← h]; exact List.take_prefix _ _
       · rw [← h]; exact List.take_prefix _ _
     · rw [← h]; exact List.take_prefix _ _
 
